@@ -134,6 +134,12 @@ type Explorer struct {
 	pathCovers  []string
 	known       map[string]*Term
 	httpReqs    []*value
+	thrB        *thread
+	mutexIDs    map[*value]int
+	lockLog     []string
+	cur         int
+	joining     bool
+	mainDone    bool
 	lastHTTPStatus value
 	pathViolated bool
 	foreign     bool
@@ -617,6 +623,8 @@ func (e *Explorer) resetPath(p []int) {
 	e.pathCovers = nil
 	e.known = map[string]*Term{}
 	e.httpReqs = nil
+	e.mutexIDs = nil
+	e.lockLog = nil
 	e.lastHTTPStatus = nil
 	e.pathViolated = false
 	e.foreign = false
@@ -677,6 +685,7 @@ func (e *Explorer) Run(name string, run func()) {
 					}
 				}
 			}()
+			defer e.killThreads()
 			run()
 			completed = true
 		}()
